@@ -158,6 +158,27 @@ func (r *Relay) FailNext(id []byte, send bool, n int) {
 	}
 }
 
+// Inject queues a message in the mailbox with the given stream id as if its
+// writer had sent it (a damaged or foreign message delivered by the relay).
+// It reports whether the mailbox exists.
+func (r *Relay) Inject(id []byte, msg []byte) bool {
+	r.mu.Lock()
+	defer r.mu.Unlock()
+	s, ok := r.streams[string(id)]
+	if !ok || s.deleted {
+		return false
+	}
+	at := time.Now().Add(r.latency)
+	if at.Before(s.lastAt) {
+		at = s.lastAt
+	}
+	s.lastAt = at
+	s.q = append(s.q, item{at: at, msg: append([]byte(nil), msg...)})
+	r.event(Event{Op: "inject", Stream: string(id), Len: len(msg), Head: head(msg)})
+	r.signal()
+	return true
+}
+
 // FailDeletes makes the next n DelCipherBox calls fail (transient error).
 func (r *Relay) FailDeletes(n int) {
 	r.mu.Lock()
